@@ -114,10 +114,14 @@ class CProcess:
 class CQueue:
     def __init__(self, maxsize: int = 0) -> None:
         self.d: collections.deque = collections.deque()
+        self.unfinished = 0     # queue.Queue's task_done()/join() accounting
 
-    def put(self, x: Any) -> None:
+    def put(self, x: Any, block: bool = True, timeout: Any = None) -> None:
         S.check()
+        self.unfinished += 1
         self.d.append(x)
+
+    put_nowait = put
 
     def empty(self) -> bool:
         return not self.d
@@ -140,7 +144,16 @@ class CQueue:
         return self.d.popleft()
 
     def task_done(self) -> None:
-        pass
+        if self.unfinished <= 0:
+            raise ValueError('task_done() called too many times')
+        self.unfinished -= 1
+
+    def join(self) -> None:
+        S.check()
+        if self.unfinished:
+            S.block_until(lambda: self.unfinished == 0, 'qjoin')
+        else:
+            S.point('qjoin')
 
 
 class CLock:
